@@ -252,6 +252,36 @@ def one_configuration(ctx, env, config, part, parts, label=None, products=None):
                 except (ParseError, KeyError) as ex:
                     ctx.violation(classify_failure(x, str(x)), f"str(3 * ({pname}*{uname})**{e}) = {str(Q(3, x))!r} does not parse: {type(ex).__name__}", {"unit": f"({pname}*{uname})**{e}"})
 
+    # ---- units that came out of a root (an r.m.s. of ppm deviations, the side of a square in km^2): roots of powers of
+    # prefixed units and of prefixed dimensionless units (kilo * One, micro * One) read back like the units they are
+    some_bases = [m.One] + [u for _, u in units[:: max(1, len(units) // 12)]][:12]
+    for pname, p in prefixes:
+        if pname is None:
+            continue
+        for base in some_bases:
+            for n_ in (2, 3):
+                try:
+                    x = ((p * base) ** n_).root(n_)
+                except m.FractionalDimensionError:
+                    ctx.count("roots_refused_for_mixed_base_prefixes")   # a float exponent has no whole root: C14's known finding, not a rendering
+                    continue
+                except Exception as ex:
+                    ctx.violation(f"C13:construct:{type(ex).__name__}", f"(({pname}*{base})**{n_}).root({n_}): {ex}", {})
+                    continue
+                ctx.count("table_cells_from_roots")
+                roundtrip_unit(x, f"(({pname}*{base})**{n_}).root({n_})")
+                try:
+                    q2 = Q.parse(str(Q(5.0, x)))
+                    a_, b_ = orc.si_value(5.0, x), orc.si_value(q2.magnitude, q2.unit)
+                    if orc.knows(x) and orc.knows(q2.unit):
+                        ma, mb = (a_[0] + a_[1]) / 2, (b_[0] + b_[1]) / 2
+                        if mdl.dim_of_unit(q2.unit) != mdl.dim_of_unit(x) or abs(ma - mb) > max(abs(ma), abs(mb)) * R9:
+                            key_ = classify_failure(x, str(x), parsed_to=q2.unit)
+                            ctx.violation(key_ if "collides" in key_ else "C13:quantity-parses-to-a-different-value", f"str(5.0 * (({pname}*{base})**{n_}).root({n_})) = {str(Q(5.0, x))!r} parses to {q2!r}",
+                                          {"unit": f"(({pname}*{base})**{n_}).root({n_})"})
+                except (ParseError, KeyError):
+                    pass   # reported by the unit round trip above, under its own key
+
     # ---- random products, quantities, spellings ---------------------------------------------------
     n = products if products is not None else ctx.scale(3000, 300_000)
     for i in range(n):
